@@ -49,6 +49,10 @@ NEEDED = {
  'C05-8': 'liquidatee with two debt banks whose e-mode tables disagree, in both address orders',
  'C05-9': 'banks untouched for 180 days under heavy borrowing: eligibility judged at the share values the liquidation brings up to date',
  'C07-7': 'remaining collateral in a bank whose initial-margin value cap is exceeded thousands of times',
+ 'C12-7': "both groups' staked settings name the same feed and differ in content; the zero-data differential now also runs for existing foreign accounts accepted with the golden outcome (C08)",
+ 'C12-8': 'the role key named in its slot without signing: a cell per golden call in C08 and a variant of every role request in C12',
+ 'C10-7': '(caught by the sibling checks C08 and C12: the deleverage bracket leaves the marker)',
+ 'C10-8': 'reduce-only collateral portfolio in the amount grid (C07 caught it as it stood)',
  'C19-8': "the reference keeps its own ledger of when a position was last touched; rewards switched off / on in the sequences; a budget variant that starts switched off",
  'C08-7': '(caught by the sibling check C10: two start instructions in one transaction)',
  'C08-8': "C12 'nobody' cells: the permissionless staked-settings propagation aimed at ordinary banks",
